@@ -342,13 +342,13 @@ Lemma option_map_comp_stored T vals (x : option ent) :
 Proof. destruct x; reflexivity. Qed.
 
 (* ---------- C09: Search on a retained key, every mode ---------- *)
-Theorem search_retained o keys vals T i k P S :
-  build o keys vals = Ok T ->
+Theorem search_retained_gen b0 o keys vals T i k P S :
+  build_gen b0 o keys vals = Ok T ->
   nth_error keys i = Some k ->
   map e_idx (kept (root_subset o keys vals)) = P ++ i :: S ->
   search T k = Ok (option_map (stored T vals) (last_opt P), Some (stored T vals i), option_map (stored T vals) (hd_opt S)).
 Proof.
-  intros Hb Hk HPS. destruct (build_ok _ _ _ _ Hb) as [[-> _]|(r & lidx & B)]; [destruct i; discriminate|].
+  intros Hb Hk HPS. destruct (build_gen_ok b0 _ _ _ _ Hb) as [[-> _]|(r & lidx & B)]; [destruct i; discriminate|].
   set (root := root_subset o keys vals) in *.
   pose proof (bt_sorted _ _ _ _ _ _ B) as Hs. pose proof (bt_nonempty _ _ _ _ _ _ B) as Hne.
   set (e := root_ent o keys vals i k).
@@ -378,9 +378,16 @@ Proof.
     + rewrite Forall_forall in HA. specialize (HA e Hin). unfold gt_q in HA. cbn [e e_nibs root_ent] in HA. rewrite lex_cmp_refl in HA. discriminate.
 Qed.
 
+Theorem search_retained o keys vals T i k P S :
+  build o keys vals = Ok T ->
+  nth_error keys i = Some k ->
+  map e_idx (kept (root_subset o keys vals)) = P ++ i :: S ->
+  search T k = Ok (option_map (stored T vals) (last_opt P), Some (stored T vals i), option_map (stored T vals) (hd_opt S)).
+Proof. exact (search_retained_gen true o keys vals T i k P S). Qed.
+
 (* ---------- C03: complete mode is an exact ordered map ---------- *)
-Theorem complete_exact o keys vals T q :
-  build o keys vals = Ok T -> keys <> [] -> o_inner o = true -> o_leaf o = true ->
+Theorem complete_exact_gen b0 o keys vals T q :
+  build_gen b0 o keys vals = Ok T -> keys <> [] -> o_inner o = true -> o_leaf o = true ->
   let root := root_subset o keys vals in
   let sv := fun x => stored T vals (e_idx x) in
   exists Bl Ar,
@@ -395,7 +402,7 @@ Theorem complete_exact o keys vals T q :
                 rangeget T q = Ok (Found (sv x)))).
 Proof.
   intros Hb Hne Hinner Hleaf root sv. subst root.
-  destruct (build_ok _ _ _ _ Hb) as [[-> _]|(r & lidx & B)]; [congruence|].
+  destruct (build_gen_ok b0 _ _ _ _ Hb) as [[-> _]|(r & lidx & B)]; [congruence|].
   pose proof (root_inv o keys vals (bt_sorted _ _ _ _ _ _ B) Hne) as I.
   pose proof (searchid_spec o keys vals T r lidx B q (or_intror Hinner)) as Hsp.
   pose proof (searchid_leaves o keys vals T r lidx B q) as Hlv.
@@ -439,6 +446,22 @@ Proof.
     + cbn [oidx] in HL. destruct (last_opt Bl); [discriminate|reflexivity].
 Qed.
 
+Theorem complete_exact o keys vals T q :
+  build o keys vals = Ok T -> keys <> [] -> o_inner o = true -> o_leaf o = true ->
+  let root := root_subset o keys vals in
+  let sv := fun x => stored T vals (e_idx x) in
+  exists Bl Ar,
+    Forall (fun x => key_lt (e_key x) q) Bl /\ Forall (fun x => key_lt q (e_key x)) Ar /\
+    ((kept root = Bl ++ Ar /\ getid T q = None /\ get T q = Ok NotFound /\
+      search T q = Ok (option_map sv (last_opt Bl), None, option_map sv (hd_opt Ar)) /\
+      rangeget T q = Ok (match last_opt Bl with Some x => Found (sv x) | None => NotFound end))
+     \/
+     (exists x, kept root = Bl ++ x :: Ar /\ e_key x = q /\ (exists id, getid T q = Some id) /\
+                get T q = Ok (Found (sv x)) /\
+                search T q = Ok (option_map sv (last_opt Bl), Some (sv x), option_map sv (hd_opt Ar)) /\
+                rangeget T q = Ok (Found (sv x)))).
+Proof. exact (complete_exact_gen true o keys vals T q). Qed.
+
 (* ---------- C02: RangeGet on every indexed key ---------- *)
 Lemma run_value o keys vs : length vs = length keys ->
   forall i, i < length keys ->
@@ -476,8 +499,8 @@ Proof.
     + intros y Hy. apply Hmax. right. exact Hy.
 Qed.
 
-Theorem rangeget_indexed o keys vals T i k :
-  build o keys vals = Ok T ->
+Theorem rangeget_indexed_gen b0 o keys vals T i k :
+  build_gen b0 o keys vals = Ok T ->
   nth_error keys i = Some k ->
   match vals with Some vs => length vs = length keys | None => True end ->
   exists v, rangeget T k = Ok (Found v) /\ val_bytes v = supplied vals i /\ (vals = None -> v = None).
@@ -485,13 +508,13 @@ Proof.
   intros Hb Hk Hwf.
   destruct (retained o keys vals i) eqn:Er.
   { (* retained: Get finds it and RangeGet follows Get *)
-    destruct (kept_key_found o keys vals T i k Hb Hk Er) as (_ & v & Hg & Hv & Hn).
-    destruct (lookups_total_consistent o keys vals T k Hb) as (_ & _ & _ & _ & _ & _ & Hrg & _).
+    destruct (kept_key_found_gen b0 o keys vals T i k Hb Hk Er) as (_ & v & Hg & Hv & Hn).
+    destruct (lookups_total_consistent_gen b0 o keys vals T k Hb) as (_ & _ & _ & _ & _ & _ & Hrg & _).
     exists v. split; [apply Hrg; exact Hg|auto]. }
   (* de-duplicated away: the value equals that of the last retained key before it *)
   assert (i < length keys) as Hi by (apply nth_error_Some; rewrite Hk; discriminate).
   destruct vals as [vs|]; [|pose proof (retained_spec o keys None i Hi) as H; cbv beta iota in H; rewrite H in Er; discriminate].
-  destruct (build_ok _ _ _ _ Hb) as [[-> _]|(r & lidx & B)]; [destruct i; discriminate|].
+  destruct (build_gen_ok b0 _ _ _ _ Hb) as [[-> _]|(r & lidx & B)]; [destruct i; discriminate|].
   pose proof (bt_sorted _ _ _ _ _ _ B) as Hs. pose proof (bt_nonempty _ _ _ _ _ _ B) as Hne.
   pose proof (root_inv o keys (Some vs) Hs Hne) as I.
   set (e := root_ent o keys (Some vs) i k).
@@ -552,3 +575,10 @@ Proof.
   exists (stored T (Some vs) j). split; [reflexivity|]. split; [|discriminate].
   rewrite Hsb. cbn [supplied]. exact Hvj.
 Qed.
+
+Theorem rangeget_indexed o keys vals T i k :
+  build o keys vals = Ok T ->
+  nth_error keys i = Some k ->
+  match vals with Some vs => length vs = length keys | None => True end ->
+  exists v, rangeget T k = Ok (Found v) /\ val_bytes v = supplied vals i /\ (vals = None -> v = None).
+Proof. exact (rangeget_indexed_gen true o keys vals T i k). Qed.
